@@ -343,3 +343,6 @@ def run(chk, facts, tier):
     c02_ops.check_tpe(chk, facts)
     from rules import c14_query
     c14_query.check(chk, facts)
+    # the API's views of a response (bucket accessors, lookups) are thin wrappers: none is wired to a sibling's target
+    from rules import C19 as _c19
+    _c19.sibling_delegates(chk, facts)
